@@ -47,6 +47,14 @@ type mCall struct {
 	IDs []uint64 `json:"ids"`
 }
 
+type mPage struct {
+	K   string   `json:"k"`
+	E   string   `json:"e"`
+	L   string   `json:"l"`
+	IDs []uint64 `json:"ids,omitempty"`
+	OK  bool     `json:"ok,omitempty"`
+}
+
 type mWrite struct {
 	P string `json:"p"` // pipeline "ledger/exporter"
 	V uint64 `json:"v"`
@@ -60,6 +68,9 @@ type mEvent struct {
 	Calls   []mCall  `json:"calls,omitempty"`   // exporter calls let through in this step, in order
 	Stores  []mWrite `json:"stores,omitempty"`  // StorePipelineState executed in this step
 	Loads   []mWrite `json:"loads,omitempty"`   // rows (pipeline, last_log_id) read by the manager
+	// Pages: every Batcher.Accept of the step, in order: k="send" (the page entered the
+	// shared batcher) / "ret" (Accept returned; ok=false: abandoned, context cancelled)
+	Pages []mPage `json:"pages,omitempty"`
 	Running []string `json:"running"`           // m.pipelines after the step ("ledger/exporter")
 	Live    []string `json:"live"`              // m.drivers after the step
 	Waiting int      `json:"waiting"`           // calls blocked at a gate after the step
@@ -258,6 +269,44 @@ func (f *mFactory) Create(ctx context.Context, id string) (drivers.Driver, json.
 	return &mExporter{w: f.w, id: id}, json.RawMessage(cfg), nil
 }
 
+// mPageFactory wraps the real Batcher (as handed out by NewWithBatchingDriverFactory)
+// only to OBSERVE the pages the handlers pass to Batcher.Accept and how it returns.
+type mPageFactory struct {
+	w     *mWorld
+	inner drivers.Factory
+}
+
+func (f *mPageFactory) Create(ctx context.Context, id string) (drivers.Driver, json.RawMessage, error) {
+	d, raw, err := f.inner.Create(ctx, id)
+	if err != nil {
+		return nil, nil, err
+	}
+	return &mPageDriver{Driver: d, w: f.w, id: id}, raw, nil
+}
+
+type mPageDriver struct {
+	drivers.Driver
+	w  *mWorld
+	id string
+}
+
+func (d *mPageDriver) Accept(ctx context.Context, logs ...drivers.LogWithLedger) ([]error, error) {
+	l := ""
+	ids := make([]uint64, 0, len(logs))
+	for _, x := range logs {
+		l = x.Ledger
+		ids = append(ids, *x.ID)
+	}
+	d.w.mu.Lock()
+	d.w.ev.Pages = append(d.w.ev.Pages, mPage{K: "send", E: d.id, L: l, IDs: ids})
+	d.w.mu.Unlock()
+	errs, err := d.Driver.Accept(ctx, logs...)
+	d.w.mu.Lock()
+	d.w.ev.Pages = append(d.w.ev.Pages, mPage{K: "ret", E: d.id, L: l, OK: err == nil})
+	d.w.mu.Unlock()
+	return errs, err
+}
+
 type mExporter struct {
 	w  *mWorld
 	id string
@@ -282,7 +331,9 @@ func (e *mExporter) Accept(ctx context.Context, logs ...drivers.LogWithLedger) (
 	defer e.w.mu.Unlock()
 	var cur *mCall
 	for _, l := range logs {
-		if cur == nil || cur.L != l.Ledger {
+		// one entry per run of consecutive ids of one ledger: a chunk of the shared batcher
+		// can hold several pages (other ledgers, or an abandoned page of the same ledger)
+		if cur == nil || cur.L != l.Ledger || cur.IDs[len(cur.IDs)-1]+1 != *l.ID {
 			e.w.ev.Calls = append(e.w.ev.Calls, mCall{E: e.id, L: l.Ledger})
 			cur = &e.w.ev.Calls[len(e.w.ev.Calls)-1]
 		}
@@ -305,7 +356,7 @@ type mRunner struct {
 }
 
 func (r *mRunner) newManager() {
-	f := drivers.NewWithBatchingDriverFactory(&mFactory{w: r.w, maxItems: r.mi}, logging.NopZap())
+	f := &mPageFactory{w: r.w, inner: drivers.NewWithBatchingDriverFactory(&mFactory{w: r.w, maxItems: r.mi}, logging.NopZap())}
 	r.mgr = replication.NewManager(r.w, f, logging.NopZap(), nopValidator{},
 		replication.WithSyncPeriod(100000*time.Hour),
 		replication.WithPipelineOptions(
@@ -413,6 +464,19 @@ func (r *mRunner) park() {
 	}
 }
 
+// drainStores lets every waiting StorePipelineState through: a state write in flight
+// across a reset is the reset race, which the `repl` workload covers.
+func (r *mRunner) drainStores() {
+	for i := 0; i < 1000; i++ {
+		g := r.s.find("persist", 0)
+		if g == nil {
+			return
+		}
+		r.s.release(g, "ok")
+		synctest.Wait()
+	}
+}
+
 func (r *mRunner) exec(a mAction) mEvent {
 	progress.Add(1)
 	ev := mEvent{mAction: a}
@@ -450,10 +514,13 @@ func (r *mRunner) exec(a mAction) mEvent {
 	case "start":
 		needUp(func() error { return mgr.StartPipeline(ctx, id) })
 	case "stop":
+		r.drainStores()
 		needUp(func() error { return mgr.StopPipeline(ctx, id) })
 	case "reset":
+		r.drainStores()
 		needUp(func() error { return mgr.ResetPipeline(ctx, id) })
 	case "delete":
+		r.drainStores()
 		needUp(func() error {
 			err := mgr.DeletePipeline(ctx, id)
 			if err == nil {
@@ -577,29 +644,37 @@ func genMulti(c *gen.Ctx) mCaseIn {
 			add(mAction{A: "run", N: r.Intn(6)})
 		}
 	}
+	// before an operation on one pipeline: mostly bring everything to rest; sometimes leave
+	// the pipeline busy (new logs, a few calls let through): its page may then sit in the
+	// SHARED batcher when the pipeline is stopped
+	quiesce := func(l int) {
+		add(mAction{A: "settle", N: 10})
+		if r.Intn(3) == 0 {
+			add(mAction{A: "append", L: l, N: 1 + r.Intn(3)})
+			add(mAction{A: "run", N: 1 + r.Intn(4)})
+		}
+	}
 	steps := 6 + r.Intn(14)
 	if c.Wide && r.Intn(3) == 0 {
 		steps += r.Intn(40)
 	}
 	for i := 0; i < steps; i++ {
 		l, e := r.Intn(nl), pickE()
-		// an operation on one pipeline is issued with that pipeline at rest (see C33.json:
-		// logs of an abandoned Accept left in a shared batcher are a separate matter)
 		switch k := r.Intn(20); {
 		case k < 5:
 			add(mAction{A: "append", L: l, N: 1 + r.Intn(3)})
 		case k < 8:
 			add(mAction{A: "run", N: 1 + r.Intn(8)})
 		case k < 10:
-			add(mAction{A: "settle", N: 10})
+			quiesce(l)
 			add(mAction{A: "stop", L: l, E: e})
 		case k < 12:
 			add(mAction{A: "start", L: l, E: e})
 		case k < 15:
-			add(mAction{A: "settle", N: 10})
+			quiesce(l)
 			add(mAction{A: "reset", L: l, E: e})
 		case k < 16:
-			add(mAction{A: "settle", N: 10})
+			quiesce(l)
 			add(mAction{A: "delete", L: l, E: e})
 		case k < 17:
 			add(mAction{A: "create", L: l, E: e})
